@@ -102,6 +102,7 @@ struct Plan {
   status_mode: u8,     // 0 Strict, 1 SkipUnsupported, 2 SkipAll
   fail_fast: bool,
   rich: bool,          // use the rich generator for the remaining optional fields
+  exp_unrepresentable: Option<i64>, // an exp claim outside years 0000-9999: neither 'no expiration' nor a date the returned credential can carry
   expiry_in_vc_only: bool, // carry the expiration as vc.expirationDate without an exp claim (a form foreign issuers produce)
   iat: Option<i64>,        // an additional `iat` claim at nbf + this many seconds (nbf stays the issuance date)
 }
@@ -132,6 +133,7 @@ impl Plan {
       status_mode: rng.below(3) as u8,
       fail_fast: rng.bool(),
       rich: rng.chance(1, 3),
+      exp_unrepresentable: None,
       expiry_in_vc_only: false,
       iat: *rng.pick(&[None, None, Some(-2_000_000_000i64), Some(-1), Some(3), Some(2_000_000_000)]),
     }
@@ -347,6 +349,9 @@ fn build(rng: &mut Rng, p: &Plan) -> Built {
       claims_map["vc"]["expirationDate"] = json!(credgen::rfc3339(e));
     }
   }
+  if let Some(x) = p.exp_unrepresentable {
+    claims_map.insert("exp".into(), json!(x));
+  }
   if let Some(d) = p.iat {
     claims_map.insert("iat".into(), json!(issuance + d));
   }
@@ -491,7 +496,10 @@ fn mutate_one(rng: &mut Rng, p: &mut Plan, which: u64) {
       p.nonce_opt = (p.nonce_hdr + 1 + rng.below(2) as u8) % 3;
     }
     7 => p.issuance_delta = *rng.pick(&[1i64, 2, 86_400, 1_000_000_000]),
-    8 => p.expiry = Some(*rng.pick(&[-1i64, -2, -86_400, -1_000_000_000])),
+    8 => {
+      p.exp_unrepresentable = None;
+      p.expiry = Some(*rng.pick(&[-1i64, -2, -86_400, -1_000_000_000]));
+    }
     9 => p.structure = 1 + rng.below(3) as u8,
     10 => {
       p.holder_mode = 1 + rng.below(2) as u8;
@@ -519,7 +527,13 @@ fn mutate_one(rng: &mut Rng, p: &mut Plan, which: u64) {
       // legal scope that contains the method
       p.scope = if p.method == 0 { *rng.pick(&[1u8, 2, 5]) } else { 3 };
     }
+    16 => {
+      p.expiry = None;
+      p.expiry_in_vc_only = false;
+      p.exp_unrepresentable = Some(*rng.pick(&[-62_167_219_201i64, i64::MIN, 253_402_300_800, i64::MAX, -62_167_219_200 - 86_400, 253_402_300_799 + 86_400]));
+    }
     15 => {
+      p.exp_unrepresentable = None;
       // the expiration travels only inside vc (no exp claim): expired => must be rejected, otherwise either verdict
       p.expiry_in_vc_only = true;
       p.expiry = Some(*rng.pick(&[-1i64, -86_400, -1_000_000_000, 0, 1]));
@@ -552,7 +566,9 @@ impl Cx {
       // status evaluation is never reached
       u_false.clear();
     }
-    let expect_accept = s_false.is_empty() && u_false.is_empty();
+    // an exp outside years 0000-9999 is either in the past of every bound or cannot be carried by the returned credential: never acceptable
+    let unrepresentable = p.exp_unrepresentable.is_some();
+    let expect_accept = s_false.is_empty() && u_false.is_empty() && !unrepresentable;
     // an expiration carried only inside vc may be refused as inconsistent; if accepted it must not be dropped
     let either = p.expiry_in_vc_only && p.expiry.is_some();
     let fail_fast = if p.fail_fast { FailFast::FirstError } else { FailFast::AllErrors };
@@ -574,7 +590,7 @@ impl Cx {
       Ok(Ok(decoded)) => {
         self.rep.inc("accepted");
         if !expect_accept {
-          let why = s_false.first().map(|s| s.to_string()).unwrap_or_else(|| format!("{:?}", u_false.iter().next().unwrap()));
+          let why = s_false.first().map(|s| s.to_string()).unwrap_or_else(|| u_false.iter().next().map(|u| format!("{:?}", u)).unwrap_or_else(|| "exp-unrepresentable".into()));
           self.rep.violation(&format!("accepted-although-false:{}", why), &format!("credential accepted although these conditions are false: {:?} {:?}", s_false, u_false), case.clone());
         }
         // the credential returned is the one that was signed
@@ -600,6 +616,10 @@ impl Cx {
       Ok(Err(_)) if either => {
         self.rep.inc("rejected");
         self.rep.inc("rejected:expiry-in-vc-only");
+      }
+      Ok(Err(_)) if unrepresentable => {
+        self.rep.inc("rejected");
+        self.rep.inc("rejected:exp-unrepresentable");
       }
       Ok(Err(err)) => {
         self.rep.inc("rejected");
@@ -712,11 +732,11 @@ fn main() {
     match i % 8 {
       0 => {}
       1 | 2 | 3 => {
-        let w = rng.below(16);
+        let w = rng.below(17);
         mutate_one(&mut rng, &mut p, w);
       }
       4 | 5 => {
-        let (a, b) = (rng.below(16), rng.below(16));
+        let (a, b) = (rng.below(17), rng.below(17));
         mutate_one(&mut rng, &mut p, a);
         mutate_one(&mut rng, &mut p, b);
       }
@@ -729,7 +749,7 @@ fn main() {
         }
       }
       _ => {
-        for w in 0..16 {
+        for w in 0..17 {
           if rng.chance(1, 5) {
             mutate_one(&mut rng, &mut p, w);
           }
